@@ -99,7 +99,7 @@ def run_model(km, files, table, iface, usertags):
 # ---------------------------------------------------------------- C17 template generator
 NAMES = ["Alpha", "Beta", "Gamma", "Delta", "Thread", "Verbose", "N", "Items", "x1", "OtherNamespace", "Count", "kind"]
 QUIRK_NAMES = ["NOTIFY", "IFACE", "ELSEWHERE", "A", "FIRSTNAME", "a b", "FOR_BEGINNER", "EACH"]
-WORDS = ["int", "x", "=", " ", "  ", "\t", ";", "(", ")", "{", "}", "#define ", "// ", "foo_bar", "0", "12", ",", ".", "::", "*", "/", "-", "return "]
+WORDS = ["int", "x", "=", " ", "  ", "\t", ";", "(", ")", "{", "}", "#define ", "// ", "foo_bar", "0", "12", ",", ".", "::", "*", "/", "-", "return ", " -> ", " < ", " << ", ">", "T<"]
 QUIRK_WORDS = ["<", ">", "<<", "NOTIFY", "ELSE", "FOR_END", "ENDIF", "<<<", "LAST", "PER_STATE_BEGIN"]
 LISTS = ["a,b,c", "fee, fie, foe", " x , y ,", "one,two", "p,", ",q,r", "A1,B2,C3,D4"]
 COUNTS = ["1", "2", "3", " 4 ", "12"]
